@@ -485,14 +485,758 @@ fn replay_chain(sink: &mut Sink, c: &Value) {
     record_chain(sink, vols, ops, c["files"].as_bool().unwrap_or(false), "replay");
 }
 
+// ------------------------------------------------------------------------------------------ part 2
+use adlt::utils::unzip::{extract_archives, extract_to_dir};
+use std::collections::{BTreeMap, HashMap};
+use std::path::{Component, Path, PathBuf};
+use std::sync::{atomic::AtomicBool, Arc};
+
+#[derive(Clone, Debug)]
+struct MSpec {
+    name: String,
+    kind: u8, // 0 file, 1 directory, 2 symlink
+    data: Vec<u8>,
+    deflate: bool,
+}
+/// a member as the zip crate presents it (`by_index`)
+#[derive(Clone, Debug)]
+struct Presented {
+    name: String,
+    is_dir: bool,
+    is_symlink: bool,
+    data: Vec<u8>,
+}
+
+fn write_zip(ms: &[MSpec], dup: &[(String, String)]) -> Option<Vec<u8>> {
+    let mut w = zip::ZipWriter::new(Cursor::new(Vec::new()));
+    for m in ms {
+        let o = zip::write::SimpleFileOptions::default()
+            .compression_method(if m.deflate { zip::CompressionMethod::Deflated } else { zip::CompressionMethod::Stored })
+            .unix_permissions(0o644);
+        match m.kind {
+            1 => w.add_directory(m.name.clone(), o).ok()?,
+            2 => w.add_symlink(m.name.clone(), String::from_utf8_lossy(&m.data).to_string(), o).ok()?,
+            _ => {
+                w.start_file(m.name.clone(), o).ok()?;
+                w.write_all(&m.data).ok()?;
+            }
+        }
+    }
+    let mut bytes = w.finish().ok()?.into_inner();
+    // duplicate member names: the writer refuses them, so a second name of the same length is patched
+    for (from, to) in dup {
+        assert_eq!(from.len(), to.len());
+        let f = from.as_bytes();
+        let mut i = 0;
+        while i + f.len() <= bytes.len() {
+            if &bytes[i..i + f.len()] == f {
+                bytes[i..i + f.len()].copy_from_slice(to.as_bytes());
+                i += f.len();
+            } else {
+                i += 1;
+            }
+        }
+    }
+    Some(bytes)
+}
+
+fn present(bytes: &[u8]) -> Option<Vec<Presented>> {
+    let mut za = zip::ZipArchive::new(Cursor::new(bytes.to_vec())).ok()?;
+    let mut out = vec![];
+    for i in 0..za.len() {
+        let mut f = za.by_index(i).ok()?;
+        let mut data = vec![];
+        let (is_dir, is_symlink) = (f.is_dir(), f.is_symlink());
+        if !is_dir {
+            f.read_to_end(&mut data).ok()?;
+        }
+        out.push(Presented { name: f.name().to_string(), is_dir, is_symlink, data });
+    }
+    // file_names() must present the same names in the same order (assumption of the model)
+    let names: Vec<String> = za.file_names().map(|s| s.to_string()).collect();
+    if names != out.iter().map(|p| p.name.clone()).collect::<Vec<_>>() {
+        return None;
+    }
+    Some(out)
+}
+
+/// the oracle's own reading of "the name does not lead outside": lexical walk of the components
+fn norm(name: &str) -> Option<Vec<String>> {
+    if name.contains('\0') {
+        return None;
+    }
+    let mut loc: Vec<String> = vec![];
+    for c in Path::new(name).components() {
+        match c {
+            Component::Prefix(_) | Component::RootDir => return None,
+            Component::CurDir => {}
+            Component::ParentDir => {
+                loc.pop()?;
+            }
+            Component::Normal(s) => loc.push(s.to_str()?.to_string()),
+        }
+    }
+    Some(loc)
+}
+
+#[derive(Clone, Debug, PartialEq)]
+enum Node {
+    Dir,
+    File(Vec<u8>),
+    Other,
+}
+type Tree = BTreeMap<Vec<String>, Node>;
+
+fn walk(dir: &Path, rel: &mut Vec<String>, out: &mut Tree) {
+    if let Ok(rd) = std::fs::read_dir(dir) {
+        for e in rd.flatten() {
+            let p = e.path();
+            let name = e.file_name().to_string_lossy().to_string();
+            rel.push(name);
+            let md = std::fs::symlink_metadata(&p).unwrap();
+            if md.file_type().is_symlink() {
+                out.insert(rel.clone(), Node::Other);
+            } else if md.is_dir() {
+                out.insert(rel.clone(), Node::Dir);
+                walk(&p, rel, out);
+            } else {
+                out.insert(rel.clone(), Node::File(std::fs::read(&p).unwrap_or_default()));
+            }
+            rel.pop();
+        }
+    }
+}
+fn copy_tree(from: &Path, to: &Path) {
+    std::fs::create_dir_all(to).unwrap();
+    for e in std::fs::read_dir(from).unwrap().flatten() {
+        let p = e.path();
+        if p.is_dir() {
+            copy_tree(&p, &to.join(e.file_name()));
+        } else {
+            std::fs::copy(&p, to.join(e.file_name())).unwrap();
+        }
+    }
+}
+fn tree_of(dir: &Path) -> Tree {
+    let mut t = Tree::new();
+    walk(dir, &mut vec![], &mut t);
+    t
+}
+
+fn cstr(s: &str) -> String {
+    cnums(s.as_bytes())
+}
+fn cmembers(ps: &[Presented]) -> String {
+    clist(&ps.iter().map(|p| format!("mm {} {} {}", cstr(&p.name), cbool(p.is_symlink), cnums(&p.data))).collect::<Vec<_>>())
+}
+fn o_tree(t: &Tree) -> O {
+    O::T(t
+        .iter()
+        .map(|(k, n)| {
+            let key = O::T(k.iter().map(|s| O::bytes(s.as_bytes())).collect());
+            match n {
+                Node::Dir => O::T(vec![key, O::L(0), O::T(vec![])]),
+                Node::File(c) => O::T(vec![key, O::L(1), O::bytes(c)]),
+                Node::Other => O::T(vec![key, O::L(2), O::T(vec![])]),
+            }
+        })
+        .collect())
+}
+
+struct Sandbox {
+    _outer: tempfile::TempDir,
+    outer: PathBuf,
+    t: PathBuf,
+    before: Tree, // the outer directory without t/
+}
+const SENTINEL: &[u8] = b"do not touch";
+fn sandbox() -> Sandbox {
+    let outer_td = tempfile::tempdir().expect("tempdir");
+    let outer = outer_td.path().canonicalize().unwrap();
+    std::fs::write(outer.join("sentinel"), SENTINEL).unwrap();
+    std::fs::create_dir(outer.join("decoy")).unwrap();
+    std::fs::write(outer.join("decoy").join("old.txt"), SENTINEL).unwrap();
+    let t = outer.join("t");
+    std::fs::create_dir(&t).unwrap();
+    let mut before = tree_of(&outer);
+    before.retain(|k, _| k[0] != "t");
+    Sandbox { _outer: outer_td, outer, t, before }
+}
+impl Sandbox {
+    fn untouched(&self, skip: &[&str]) -> bool {
+        let mut now = tree_of(&self.outer);
+        now.retain(|k, _| k[0] != "t" && !skip.contains(&k[0].as_str()));
+        now == self.before
+    }
+}
+
+struct ExtractRun {
+    result: Result<Vec<String>, String>, // reported names (relative to T) or the error
+    tree: Tree,
+    untouched: bool,
+}
+
+/// what must hold for an extraction run, stated on names/bytes only (independent of the Coq model)
+fn extract_oracle(
+    ps: &[Presented],
+    pre: &Tree,
+    filter: &Option<Vec<String>>,
+    rn: &HashMap<String, String>,
+    run: &ExtractRun,
+    t_before: Option<&Path>, // the target dir as it was before the run (None: it was empty)
+) -> Verdict {
+    let fail = |c: &str, d: String| Verdict::Fail { clause: c.into(), detail: d };
+    if !run.untouched {
+        return fail("extract_confined", "something outside the target directory was created or changed".into());
+    }
+    if let Some((k, _)) = run.tree.iter().find(|(_, n)| **n == Node::Other) {
+        return fail("extract_confined", format!("a symbolic link / special file was created at {:?}", k));
+    }
+    let renamed = |n: &str| rn.get(n).cloned().unwrap_or_else(|| n.to_string());
+    // names of the filter that are already there (as files, inside) are reported first and not extracted again
+    let mut expected: Vec<String> = vec![];
+    let mut remaining: Option<Vec<String>> = None;
+    if let Some(fl) = filter {
+        let mut keep = vec![];
+        for f in fl {
+            let n = renamed(f);
+            // "already extracted": the name stays inside and designates an existing file (asked from the real file system)
+            let there = norm(&n).is_some() && t_before.map_or(false, |t| t.join(&n).is_file());
+            if there {
+                expected.push(n)
+            } else {
+                keep.push(f.clone())
+            }
+        }
+        remaining = Some(keep);
+    }
+    // the members that are to be extracted, in archive order
+    let mut writers: BTreeMap<Vec<String>, Vec<Vec<u8>>> = BTreeMap::new(); // writers per location, in order
+    for p in ps {
+        let eligible = norm(&p.name).is_some() && !p.is_dir && !p.is_symlink && remaining.as_ref().map_or(true, |k| k.contains(&p.name));
+        if eligible {
+            let n = renamed(&p.name);
+            expected.push(n.clone());
+            if let Some(loc) = norm(&n) {
+                writers.entry(loc).or_default().push(p.data.clone());
+            }
+        }
+    }
+    // faithful: every file in the target dir is a member's bytes (last writer) or was there before
+    for (k, n) in run.tree.iter() {
+        if let Node::File(c) = n {
+            // after a complete run the last member written there; after an error any of them (or the old file)
+            let ok = match writers.get(k) {
+                Some(ds) if run.result.is_ok() => ds.last() == Some(c),
+                Some(ds) => ds.contains(c) || pre.get(k) == Some(n),
+                None => pre.get(k) == Some(n),
+            };
+            if !ok {
+                return fail("extract_faithful", format!("{:?} holds {:?}", k, &c[..c.len().min(16)]));
+            }
+        }
+    }
+    match &run.result {
+        Err(_) => Verdict::Ok, // an I/O error (a name that denotes a directory, file/directory clash) is reported to the caller
+        Ok(rep) => {
+            if *rep != expected {
+                return fail("extract_exact_set", format!("reported {:?}, expected {:?}", rep, expected));
+            }
+            for r in rep {
+                match norm(r) {
+                    Some(loc) if !loc.is_empty() => {
+                        if !matches!(run.tree.get(&loc), Some(Node::File(_))) {
+                            return fail("extract_reported_exists", format!("{:?} is reported but no file is there", r));
+                        }
+                    }
+                    _ => return fail("extract_reported_inside", format!("reported name {:?} leads outside", r)),
+                }
+            }
+            Verdict::Ok
+        }
+    }
+}
+
+fn split_volumes(rng: &mut Rng, bytes: &[u8]) -> Vec<Vec<u8>> {
+    match rng.below(3) {
+        0 => vec![bytes.to_vec()],
+        _ => {
+            let k = rng.range(2, 4) as usize;
+            let mut cuts: Vec<usize> = (0..k - 1).map(|_| rng.below(bytes.len() as u64 + 1) as usize).collect();
+            if rng.chance(1, 3) {
+                cuts[0] = *rng.pick(&[0usize, bytes.len()]);
+            }
+            cuts.sort();
+            let mut v = vec![];
+            let mut prev = 0;
+            for c in cuts {
+                v.push(bytes[prev..c].to_vec());
+                prev = c;
+            }
+            v.push(bytes[prev..].to_vec());
+            v
+        }
+    }
+}
+
+fn o_run(run: &ExtractRun) -> O {
+    match &run.result {
+        Ok(rep) => O::T(vec![O::L(0), O::T(rep.iter().map(|s| O::bytes(s.as_bytes())).collect()), o_tree(&run.tree), O::b(run.untouched)]),
+        Err(_) => O::T(vec![O::L(1), O::T(vec![]), o_tree(&run.tree), O::b(run.untouched)]),
+    }
+}
+
+fn name_tags(ps: &[Presented], tags: &mut Vec<String>) -> bool {
+    let mut hostile = false;
+    for p in ps {
+        let n = &p.name;
+        let mut t = |s: &str| tags.push(s.to_string());
+        if norm(n).is_none() {
+            t("name_leads_outside");
+            hostile = true;
+        }
+        if n.starts_with('/') {
+            t("name_absolute");
+        }
+        if n.split('/').any(|s| s == "..") {
+            t("name_with_dotdot");
+            hostile = true;
+        }
+        if n.split('/').any(|s| s == ".") || n.contains("//") {
+            t("name_with_dot_or_empty_segment");
+        }
+        if p.is_dir {
+            t("member_dir");
+        }
+        if p.is_symlink {
+            t("member_symlink");
+        }
+        if !p.is_dir && p.data.is_empty() {
+            t("member_empty");
+        }
+        if n.contains('\\') {
+            t("name_with_backslash");
+        }
+        if !n.is_ascii() {
+            t("name_non_ascii");
+        }
+        if n.contains('/') && norm(n).is_some() {
+            t("name_nested");
+        }
+    }
+    hostile
+}
+
+#[allow(clippy::too_many_arguments)]
+fn record_extract(sink: &mut Sink, ms: &[MSpec], dup: &[(String, String)], pre: &[(String, Option<Vec<u8>>)], filter: Option<Vec<String>>, rn: Vec<(String, String)>, vols_seed: u64, extra_tag: &str) {
+    let bytes = match write_zip(ms, dup) {
+        Some(b) => b,
+        None => return,
+    };
+    let ps = match present(&bytes) {
+        Some(p) => p,
+        None => return,
+    };
+    let sb = sandbox();
+    // what the target dir holds before
+    for (p, c) in pre {
+        let full = sb.t.join(p);
+        match c {
+            None => std::fs::create_dir_all(&full).unwrap(),
+            Some(c) => {
+                std::fs::create_dir_all(full.parent().unwrap()).unwrap();
+                std::fs::write(&full, c).unwrap();
+            }
+        }
+    }
+    let pre_tree = tree_of(&sb.t);
+    // a copy of the target dir as it is before the run, for the oracle
+    let t_copy = sb.outer.join("t_before");
+    copy_tree(&sb.t, &t_copy);
+    let mut vrng = Rng::new(vols_seed);
+    let vols = split_volumes(&mut vrng, &bytes);
+    let nvols = vols.len();
+    let rn_map: HashMap<String, String> = rn.iter().cloned().collect();
+    let cancel = Arc::new(AtomicBool::new(false));
+    let t = sb.t.clone();
+    let (f2, rn2) = (filter.clone(), rn_map.clone());
+    let r = catch_loc(move || {
+        let chain = SeekableChain::new(vols.into_iter().map(Cursor::new).collect::<Vec<_>>());
+        extract_to_dir(chain, &t, f2, &rn2, &cancel)
+    });
+    let result = match r {
+        Err(p) => Err(format!("panic: {}", p)),
+        Ok(Err(e)) => Err(e.to_string()),
+        Ok(Ok(v)) => Ok(v.iter().map(|p| p.to_string_lossy().to_string()).collect::<Vec<_>>()),
+    };
+    let panicked = matches!(&result, Err(e) if e.starts_with("panic: "));
+    let run = ExtractRun { result, tree: tree_of(&sb.t), untouched: sb.untouched(&["t_before"]) };
+    let mut verdict = extract_oracle(&ps, &pre_tree, &filter, &rn_map, &run, Some(&t_copy));
+    if panicked {
+        verdict = Verdict::Fail { clause: "extract_no_panic".into(), detail: run.result.clone().unwrap_err() };
+    }
+    let inside = clist(
+        &pre_tree
+            .iter()
+            .map(|(k, n)| {
+                format!(
+                    "({}, {})",
+                    clist(&k.iter().map(|s| cstr(s)).collect::<Vec<_>>()),
+                    match n {
+                        Node::File(c) => format!("F {}", cnums(c)),
+                        _ => "D".to_string(),
+                    }
+                )
+            })
+            .collect::<Vec<_>>(),
+    );
+    let cfilter = copt(filter.as_ref().map(|f| clist(&f.iter().map(|s| cstr(s)).collect::<Vec<_>>())));
+    let crn = clist(&rn.iter().map(|(a, b)| format!("({}, {})", cstr(a), cstr(b))).collect::<Vec<_>>());
+    let input_coq = format!("CExtract {} {} {} {}", inside, cfilter, crn, cmembers(&ps));
+    let mut tags = vec!["extract_to_dir".to_string(), format!("archive_volumes{}", nvols)];
+    let hostile = name_tags(&ps, &mut tags);
+    if filter.is_some() {
+        tags.push("with_filter".into())
+    }
+    if !rn.is_empty() {
+        tags.push("with_rename".into())
+    }
+    if !pre.is_empty() {
+        tags.push("target_dir_not_empty".into())
+    }
+    if !dup.is_empty() {
+        tags.push("duplicate_member_names".into())
+    }
+    if run.result.is_err() {
+        tags.push("extract_returned_err".into())
+    }
+    if !extra_tag.is_empty() {
+        tags.push(extra_tag.into())
+    }
+    tags.sort();
+    tags.dedup();
+    let nontrivial = hostile && matches!(&run.result, Ok(v) if !v.is_empty());
+    let id = sink.next_id();
+    sink.push(Case {
+        id,
+        key: input_coq.clone(),
+        input_coq,
+        input_json: json!({"part": "extract",
+            "members": ms.iter().map(|m| json!({"name": m.name, "kind": m.kind, "data": m.data, "deflate": m.deflate})).collect::<Vec<_>>(),
+            "dup": dup, "pre": pre, "filter": filter, "rename": rn, "vols_seed": vols_seed}),
+        obs: o_run(&run),
+        verdict,
+        classes: vec![],
+        tags,
+        nontrivial,
+    });
+}
+
+fn record_archives(sink: &mut Sink, ms: &[MSpec], dup: &[(String, String)], stem: &str, pattern: &str, bang: bool, multi_vol: u64, extra_tag: &str) {
+    let bytes = match write_zip(ms, dup) {
+        Some(b) => b,
+        None => return,
+    };
+    let ps = match present(&bytes) {
+        Some(p) => p,
+        None => return,
+    };
+    let pat = match glob::Pattern::new(pattern) {
+        Ok(p) => p,
+        Err(_) => return,
+    };
+    let sb = sandbox();
+    // the archive lives in its own directory next to the sandbox's t/
+    let adir = sb.outer.join("arch");
+    std::fs::create_dir(&adir).unwrap();
+    let first = if multi_vol >= 2 {
+        let n = multi_vol as usize;
+        let per = bytes.len() / n + 1;
+        for (i, chunk) in bytes.chunks(per).enumerate() {
+            std::fs::write(adir.join(format!("{}.zip.{:03}", stem, i + 1)), chunk).unwrap();
+        }
+        adir.join(format!("{}.zip.001", stem))
+    } else {
+        let p = adir.join(format!("{}.zip", stem));
+        std::fs::write(&p, &bytes).unwrap();
+        p
+    };
+    let file_name = format!("{}{}{}", first.to_string_lossy(), if bang { "!/" } else { "/" }, pattern);
+    // the split of "archive/glob" is not part of the model: only texts that extract_archives reads as intended
+    match adlt::utils::unzip::archive_get_path_and_glob(Path::new(&file_name)) {
+        Some((ap, gp)) if ap == first && gp.as_str() == pattern => {}
+        _ => {
+            *sink.extra_stats.entry("archives_glob_text_not_parsed_as_intended(skipped)".into()).or_insert(json!(0)) =
+                json!(sink.extra_stats.get("archives_glob_text_not_parsed_as_intended(skipped)").and_then(|v| v.as_u64()).unwrap_or(0) + 1);
+            return;
+        }
+    }
+    let log = slog::Logger::root(slog::Discard, slog::o!());
+    let cancel = Arc::new(AtomicBool::new(false));
+    let fname = file_name.clone();
+    let r = catch_loc(move || {
+        let mut tds = vec![];
+        let v = extract_archives(fname, &mut tds, &cancel, &log);
+        (v, tds)
+    });
+    // the archive stem as extract_archives computes it (file_stem of the archive path)
+    let astem = first.file_stem().unwrap().to_string_lossy().to_string();
+    let entries: Vec<(String, bool)> = ps.iter().map(|p| (p.name.clone(), pat.matches(&p.name))).collect();
+    let stem_matches = pat.matches(&astem);
+    let fail = |c: &str, d: String| Verdict::Fail { clause: c.into(), detail: d };
+    let (obs, verdict, is_err, n_rep) = match r {
+        Err(p) => (O::T(vec![O::L(3)]), fail("extract_no_panic", p), false, 0),
+        Ok((v, tds)) => {
+            if tds.is_empty() {
+                let untouched = sb.untouched(&["arch"]);
+                if v.is_empty() {
+                    // nothing matched
+                    let any = if entries.len() == 1 && entries[0].0 == "data" {
+                        pattern == "data" || astem == pattern || stem_matches
+                    } else {
+                        entries.iter().any(|(e, m)| (e == pattern || *m) && !e.ends_with('/'))
+                    };
+                    let verdict = if any {
+                        fail("extract_exact_set", "members match but nothing was extracted".into())
+                    } else if !untouched {
+                        fail("extract_confined", "outside changed".into())
+                    } else {
+                        Verdict::Ok
+                    };
+                    (O::T(vec![O::L(2), O::T(vec![]), O::T(vec![]), O::L(1)]), verdict, false, 0)
+                } else if v == vec![file_name.clone()] {
+                    // extraction failed (or not recognised as an archive): nothing may be left behind outside
+                    let verdict = if untouched { Verdict::Ok } else { fail("extract_confined", "outside changed".into()) };
+                    (O::T(vec![O::L(1), O::T(vec![]), O::T(vec![]), O::b(untouched)]), verdict, true, 0)
+                } else {
+                    (O::T(vec![O::L(4)]), fail("extract_reported_inside", format!("no temp dir but reported {:?}", v)), false, 0)
+                }
+            } else {
+                let tdir = tds[0].1.path().to_path_buf();
+                let prefix = format!("{}/", tdir.to_string_lossy());
+                let mut rel = vec![];
+                let mut outside = None;
+                for s in &v {
+                    match s.strip_prefix(&prefix) {
+                        Some(r) => rel.push(r.to_string()),
+                        None => outside = Some(s.clone()),
+                    }
+                }
+                let untouched = sb.untouched(&["arch"]);
+                let run = ExtractRun { result: Ok(rel), tree: tree_of(&tdir), untouched };
+                // selection by the oracle
+                let (filter, rn): (Vec<String>, HashMap<String, String>) = if entries.len() == 1 && entries[0].0 == "data" {
+                    if pattern == "data" {
+                        (vec!["data".into()], HashMap::new())
+                    } else {
+                        (vec!["data".into()], [("data".to_string(), astem.clone())].into_iter().collect())
+                    }
+                } else {
+                    (entries.iter().filter(|(e, m)| (e == pattern || *m) && !e.ends_with('/')).map(|(e, _)| e.clone()).collect(), HashMap::new())
+                };
+                let mut verdict = extract_oracle(&ps, &Tree::new(), &Some(filter), &rn, &run, None);
+                if let Some(s) = outside {
+                    verdict = fail("extract_reported_inside", format!("reported path {:?} is not inside the temp dir {:?}", s, tdir));
+                }
+                let n = run.result.as_ref().map(|v| v.len()).unwrap_or(0);
+                (o_run(&run), verdict, false, n)
+            }
+        }
+    };
+    let centries = clist(&entries.iter().map(|(e, m)| format!("({}, {})", cstr(e), cbool(*m))).collect::<Vec<_>>());
+    let input_coq = format!("CArchives {} {} {} {} {}", cstr(pattern), centries, cstr(&astem), cbool(stem_matches), cmembers(&ps));
+    let mut tags = vec!["extract_archives".to_string(), if multi_vol >= 2 { "multi_volume_files".to_string() } else { "single_file".to_string() }];
+    let hostile = name_tags(&ps, &mut tags);
+    if is_err {
+        tags.push("extract_returned_err".into())
+    }
+    if bang {
+        tags.push("glob_after_bang".into())
+    }
+    if !dup.is_empty() {
+        tags.push("duplicate_member_names".into())
+    }
+    if !extra_tag.is_empty() {
+        tags.push(extra_tag.into())
+    }
+    tags.sort();
+    tags.dedup();
+    let id = sink.next_id();
+    sink.push(Case {
+        id,
+        key: input_coq.clone(),
+        input_coq,
+        input_json: json!({"part": "archives",
+            "members": ms.iter().map(|m| json!({"name": m.name, "kind": m.kind, "data": m.data, "deflate": m.deflate})).collect::<Vec<_>>(),
+            "dup": dup, "stem": stem, "pattern": pattern, "bang": bang, "multi_vol": multi_vol}),
+        obs,
+        verdict,
+        classes: vec![],
+        tags,
+        nontrivial: hostile && n_rep > 0,
+    });
+}
+
+const NICE: &[&str] = &["a.dlt", "b.dlt", "dir/c.dlt", "dir/sub/d.dlt", "dir/e.txt", "x.bin", "dir2/f.dlt", "dir/", "dir/sub/", "empty/", "g h.dlt", "ü/ö.dlt"];
+const HOSTILE: &[&str] = &[
+    "../evil.dlt", "../../evil.dlt", "/abs.dlt", "//abs2.dlt", "dir/../../evil.dlt", "dir/../h.dlt", "./i.dlt", "dir//j.dlt", "dir/./k.dlt",
+    "..", ".", "dir/..", "dir/.", "../", "./", "dir/../", "a.dlt/x.dlt", "dir", "..\\evil.dlt", "back\\", "n/o/../p.dlt", "n/o/../../q.dlt",
+    "n/o/../../../r.dlt", "../sentinel", "../decoy/new.txt", "..dlt", "...", ".../s.dlt", "dir/sub/../../t.dlt", "x/../a.dlt", "./a.dlt", "dir/../dir/c.dlt",
+];
+
+fn gen_members(rng: &mut Rng, outer_hint: bool) -> (Vec<MSpec>, Vec<(String, String)>) {
+    let n = 1 + rng.size(7) as usize;
+    let mut ms: Vec<MSpec> = vec![];
+    let mut dup = vec![];
+    for i in 0..n {
+        let name = if rng.chance(2, 5) { rng.pick(HOSTILE).to_string() } else { rng.pick(NICE).to_string() };
+        if ms.iter().any(|m| m.name == name) {
+            continue;
+        }
+        let kind = if name.ends_with('/') || name.ends_with('\\') {
+            1
+        } else if rng.chance(1, 15) {
+            2
+        } else {
+            0
+        };
+        let len = match rng.below(10) {
+            0 => 0,
+            1 => 60 + rng.below(200),
+            _ => rng.below(10),
+        };
+        let data: Vec<u8> = if kind == 2 { b"../sentinel".to_vec() } else { (0..len).map(|j| (i as u8).wrapping_mul(16).wrapping_add(j as u8)).collect() };
+        ms.push(MSpec { name, kind, data, deflate: rng.chance(1, 3) });
+    }
+    if rng.chance(1, 8) {
+        // a duplicate name: two members "dupA.dlt"
+        ms.push(MSpec { name: "dupA.dlt".into(), kind: 0, data: b"first".to_vec(), deflate: false });
+        ms.push(MSpec { name: "dupB.dlt".into(), kind: 0, data: b"second!".to_vec(), deflate: false });
+        dup.push(("dupB.dlt".to_string(), "dupA.dlt".to_string()));
+    }
+    let _ = outer_hint;
+    (ms, dup)
+}
+
+fn gen_extract_case(rng: &mut Rng, sink: &mut Sink) {
+    let (ms, dup) = gen_members(rng, true);
+    let file_names: Vec<String> = ms.iter().map(|m| m.name.clone()).collect();
+    let filter = if rng.chance(2, 5) {
+        None
+    } else {
+        let mut f: Vec<String> = file_names.iter().filter(|_| rng.chance(2, 3)).cloned().collect();
+        if rng.chance(1, 3) {
+            f.push(rng.pick(HOSTILE).to_string());
+        }
+        if rng.chance(1, 4) {
+            f.push("not-there.dlt".into());
+        }
+        Some(f)
+    };
+    // the target dir may already hold some of the members (an earlier extraction of the same archive), or a directory
+    let mut pre: Vec<(String, Option<Vec<u8>>)> = vec![];
+    if rng.chance(1, 3) {
+        for m in ms.iter().filter(|m| m.kind == 0) {
+            if let Some(loc) = norm(&m.name) {
+                if !loc.is_empty() && rng.chance(1, 2) && !pre.iter().any(|(p, _)| p.starts_with(&loc.join("/")) || loc.join("/").starts_with(p.as_str())) {
+                    pre.push((loc.join("/"), Some(m.data.clone())));
+                }
+            }
+        }
+        if rng.chance(1, 4) && !pre.iter().any(|(p, _)| p.starts_with("dir")) {
+            pre.push(("dir".into(), None));
+        }
+    }
+    let rn = if rng.chance(1, 6) && !file_names.is_empty() { vec![(rng.pick(&file_names).clone(), "renamed.bin".to_string())] } else { vec![] };
+    record_extract(sink, &ms, &dup, &pre, filter, rn, rng.next(), "");
+}
+
+const PATTERNS: &[&str] = &["**/*", "*", "*.dlt", "**/*.dlt", "dir/*", "dir/**/*.dlt", "a.dlt", "../*", "**/../*", "/*", "dir/c.dlt", "*/*", "[ab].dlt", "data", "x*", "..", "."];
+
+fn gen_archives_case(rng: &mut Rng, sink: &mut Sink) {
+    let (ms, dup) = if rng.chance(1, 10) {
+        (vec![MSpec { name: "data".into(), kind: 0, data: b"payload".to_vec(), deflate: rng.chance(1, 2) }], vec![])
+    } else {
+        gen_members(rng, true)
+    };
+    let stem = *rng.pick(&["arc", "x1", "data", "a.dlt"]);
+    let pattern = if rng.chance(1, 6) { ms[rng.below(ms.len() as u64) as usize].name.clone() } else { rng.pick(PATTERNS).to_string() };
+    if pattern.is_empty() || pattern.contains("!/") {
+        return;
+    }
+    let multi = if rng.chance(1, 4) { rng.range(2, 3) } else { 1 };
+    record_archives(sink, &ms, &dup, stem, &pattern, rng.chance(1, 3), multi, "");
+}
+
+fn extract_corpus(sink: &mut Sink) {
+    let f = |n: &str, d: &[u8]| MSpec { name: n.into(), kind: if n.ends_with('/') { 1 } else { 0 }, data: d.to_vec(), deflate: false };
+    // one hostile name between two ordinary members, no filter
+    for h in HOSTILE {
+        record_extract(sink, &[f("first.dlt", b"1"), f(h, h.as_bytes()), f("last.dlt", b"L")], &[], &[], None, vec![], 7, "corpus_hostile_name");
+    }
+    // the repaired defect: a filter name that exists outside (or names a directory) must not be reported
+    for h in ["../sentinel", "../decoy/old.txt", ".", "dir/..", "../t/first.dlt"] {
+        record_extract(
+            sink,
+            &[f("first.dlt", b"1"), f("dir/", b""), f(h, b"evil"), f("last.dlt", b"L")],
+            &[],
+            &[],
+            Some(vec!["first.dlt".into(), h.to_string(), "last.dlt".into()]),
+            vec![],
+            3,
+            "witness_reported_outside",
+        );
+    }
+    record_archives(sink, &[f("ok.dlt", b"ok"), f("../sentinel", b"evil"), f("../decoy/old.txt", b"evil")], &[], "arc", "**/*", false, 1, "witness_reported_outside");
+    record_archives(sink, &[f("ok.dlt", b"ok"), f("../sentinel", b"evil")], &[], "arc", "../sentinel", true, 1, "witness_reported_outside");
+    // already extracted members are reported and kept
+    record_extract(sink, &[f("a.dlt", b"A"), f("dir/c.dlt", b"C")], &[], &[("a.dlt".into(), Some(b"A".to_vec()))], Some(vec!["a.dlt".into(), "dir/c.dlt".into()]), vec![], 1, "corpus_reuse");
+    // aliases of one location: the last member wins, both are reported
+    record_extract(sink, &[f("a.dlt", b"one"), f("./a.dlt", b"two"), f("x/../a.dlt", b"three")], &[], &[], None, vec![], 2, "corpus_alias");
+    // duplicate names
+    record_extract(sink, &[f("dupA.dlt", b"first"), f("dupB.dlt", b"second!"), f("z.dlt", b"z")], &[("dupB.dlt".into(), "dupA.dlt".into())], &[], None, vec![], 5, "corpus_duplicate");
+    // the .gz/.bz2 convention: a single member "data" is extracted under the archive's stem
+    record_archives(sink, &[f("data", b"payload")], &[], "trace", "*", false, 1, "corpus_data_member");
+    record_archives(sink, &[f("data", b"payload")], &[], "trace", "data", false, 1, "corpus_data_member");
+    record_archives(sink, &[f("data", b"payload")], &[], "trace", "other", false, 1, "corpus_data_member");
+    record_archives(sink, &[f("a.dlt", b"A"), f("dir/", b""), f("dir/b.dlt", b"B"), f("dir/c.txt", b"C")], &[], "arc", "**/*.dlt", false, 3, "corpus_multi_volume");
+}
+
+fn spec_from_json(v: &Value) -> Vec<MSpec> {
+    v.as_array()
+        .unwrap()
+        .iter()
+        .map(|m| MSpec {
+            name: m["name"].as_str().unwrap().to_string(),
+            kind: m["kind"].as_u64().unwrap() as u8,
+            data: serde_json::from_value(m["data"].clone()).unwrap(),
+            deflate: m["deflate"].as_bool().unwrap_or(false),
+        })
+        .collect()
+}
+
 fn main() {
     let a = parse_args();
     let mut sink = Sink::new("C20", &a.out);
+    sink.shard_size = 60;
     if let Some(p) = &a.replay {
         let v = read_replay(p);
         let c = &v["case"];
         match c["part"].as_str().unwrap_or("chain") {
             "chain" => replay_chain(&mut sink, c),
+            "extract" => {
+                let ms = spec_from_json(&c["members"]);
+                let dup: Vec<(String, String)> = serde_json::from_value(c["dup"].clone()).unwrap();
+                let pre: Vec<(String, Option<Vec<u8>>)> = serde_json::from_value(c["pre"].clone()).unwrap();
+                let filter: Option<Vec<String>> = serde_json::from_value(c["filter"].clone()).unwrap();
+                let rn: Vec<(String, String)> = serde_json::from_value(c["rename"].clone()).unwrap();
+                record_extract(&mut sink, &ms, &dup, &pre, filter, rn, c["vols_seed"].as_u64().unwrap_or(1), "replay");
+            }
+            "archives" => {
+                let ms = spec_from_json(&c["members"]);
+                let dup: Vec<(String, String)> = serde_json::from_value(c["dup"].clone()).unwrap();
+                record_archives(&mut sink, &ms, &dup, c["stem"].as_str().unwrap(), c["pattern"].as_str().unwrap(), c["bang"].as_bool().unwrap_or(false), c["multi_vol"].as_u64().unwrap_or(1), "replay");
+            }
             x => panic!("unknown part {}", x),
         }
         sink.finish();
@@ -502,6 +1246,7 @@ fn main() {
     let search = a.tier == "search";
     if !search {
         chain_corpus(&mut sink);
+        extract_corpus(&mut sink);
         // every split of a 2-byte string into up to 3 volumes x every op pair of a small alphabet
         chain_exhaustive(&mut sink, b"xy", if quick { 3 } else { 4 }, if quick { 1 } else { 2 });
         if !quick {
@@ -513,6 +1258,15 @@ fn main() {
     for _ in 0..n {
         let (vols, ops, files) = gen_chain_case(&mut rng, !quick);
         record_chain(&mut sink, vols, ops, files, "");
+    }
+    let n2 = a.count.map(|c| c / 4).unwrap_or(if quick { 160 } else if search { 500 } else { 3000 });
+    let mut rng = Rng::new(a.seed ^ 0xC20);
+    for i in 0..n2 {
+        if i % 3 == 2 {
+            gen_archives_case(&mut rng, &mut sink);
+        } else {
+            gen_extract_case(&mut rng, &mut sink);
+        }
     }
     sink.finish();
 }
